@@ -200,11 +200,14 @@ def skipping(ctx, F, q, inner, rng):
             extra = [l for l in lits if not (l[0] == 'is' and is_call(l[1], 'Iterator::next')) and not is_call(l[1], 'RangeBounds::contains')
                      and not (l[1][0] == 'bin' and l[1][1] in ('Lt',) and l[0] == 'true')]
             flag_ok = False
-            if len(extra) == 1 and extra[0][0] == 'true' and extra[0][1][0] == 'phi' and set(extra[0][1][2]) == {('const', True), ('const', False)}:
+            if len(extra) == 1 and extra[0][0] in ('true', 'false') and extra[0][1][0] == 'phi' and set(extra[0][1][2]) == {('const', True), ('const', False)}:
+                # a "first skip" flag in either polarity (`first_skip` starts true and is cleared, `ellipsis_written` starts false and is set):
+                # the marker is written while the flag still has its initial value
                 fl = extra[0][1][1]
+                v0 = extra[0][0] == 'true'
                 defs_ = [(dbb, R.def_expr(dbb, didx)) for (dbb, didx) in b.defs().get(fl, [])]
-                inits = [d for d in defs_ if d[1] == ('const', True)]
-                clears = [d for d in defs_ if d[1] == ('const', False)]
+                inits = [d for d in defs_ if d[1] == ('const', v0)]
+                clears = [d for d in defs_ if d[1] == ('const', not v0)]
                 flag_ok = len(inits) == 1 and inits[0][0] not in cfg.loop_of(h) and cfg.dominates(inits[0][0], h) and clears and \
                     all(cfg.dominates(bb, d[0]) or _after_in_iteration(cfg, bb, d[0]) for d in clears)
             ell = is_ell and flag_ok
